@@ -43,9 +43,11 @@ def gen_cases(tier):
             [(a, "n1"), ("n1", "n2"), ("n2", "n3")],                   # chain through names created on the way
             [(rng.choice(inv), rng.choice(outv)), (a, "n1")],          # clash in the first step
             [(a, "n1"), ("absent", "n2"), (b, b)],
+            [(a, "t_v"), (b, a), (a, "t_v")],                          # the same pair twice, its source re-created in between
+            [(a, "n1"), ("n1", a), (a, "n1")],
         ]
         if tier == "quick":
-            lists = rng.sample(lists, 3)
+            lists = rng.sample(lists, 4)
         cases.append({"id": i + 1, "raw": d, "pairs": pairs, "lists": lists})
     return cases
 
